@@ -437,6 +437,22 @@ def run_laws(task):
                         if got != ref:
                             note("cli-does-not-win:" + o, "--%s=%s gives %r, but %r once the built-in feature %s is enabled "
                                  "(%s, %s)" % (o, v, ref, got, f, form, cfgmode), a, env)
+        elif which == "three-ways":
+            # a built-in feature is the same feature however it is enabled: by its flag, by --features, by
+            # DELTA_FEATURES (features it enables in turn included)
+            for f in LAW_FEATS:
+                ref = sc(base + ["--" + f])
+                for form, a, env in (("--features", base + ["--features=" + f], None),
+                                     ("DELTA_FEATURES", base, {"features": f}),
+                                     ("DELTA_FEATURES=+", base, {"features": "+" + f})):
+                    got = sc(a, env)
+                    n += 1
+                    distinct.add((f, form))
+                    diff = sorted(k for k in ref if ref.get(k) != got.get(k))
+                    if diff:
+                        note("feature-differs-by-way-of-enabling:" + cfgmode, "feature %s enabled through %s gives %s = %r, "
+                             "enabled by its flag %r (%s)" % (f, form, diff[0], got.get(diff[0]), ref.get(diff[0]), cfgmode),
+                             a, env)
         elif which == "independence":
             # an option nobody sets keeps its default whatever *other* option is given on the command line; the
             # documented dependencies are exempt: *-non-emph-style follows its base style, navigate-regex is built
@@ -508,7 +524,7 @@ def main(tier):
     tasks = [(seeds, cases[i:i + step], deadline) for i in range(0, len(cases), step)]
     res = explore.pmap(run_task, tasks)
     dres = explore.pmap(run_determinism, [(list(range(8 if tier == "quick" else 32)), deadline)])
-    lres = explore.pmap(run_laws, [("cli-wins", deadline), ("last-listed", deadline), ("independence", deadline)])
+    lres = explore.pmap(run_laws, [("cli-wins", deadline), ("last-listed", deadline), ("independence", deadline), ("three-ways", deadline)])
     n = sum(r["n"] for r in res)
     orders = set()
     distinct = set()
